@@ -38,8 +38,10 @@ Out == [ok |-> Cur.ok, tree |-> Norm(PostT)]
 \* replaced after the handle was issued (ghost `stale`), a request through it may also simply
 \* fail (NFS would say STALE); it must still never change anything when it fails.
 HandleStale == P \in stale \/ (Cur.proc = "RENAME" /\ Cur.h2 \in stale)
+\* a mode3 carrying bits outside the 12 permission bits may be refused or have its low bits applied
+OddMode == Cur.hasmode /\ (Cur.modehi \/ Cur.mode >= 4096) /\ Cur.proc \in {"SETATTR", "CREATE", "MKDIR", "SYMLINK"}
 NormOuts(S) == {[ok |-> o.ok, tree |-> Norm(o.tree)] : o \in S}
-               \cup (IF HandleStale THEN {[ok |-> FALSE, tree |-> Norm(PreT)]} ELSE {})
+               \cup (IF HandleStale \/ OddMode THEN {[ok |-> FALSE, tree |-> Norm(PreT)]} ELSE {})
 
 VerfOf(p) == IF p \in DOMAIN cverf THEN cverf[p] ELSE ""
 MaxFS == cfg.maxfs
@@ -90,7 +92,8 @@ Allowed ==
          IF Kind(PreT, P) = "F" THEN Ok(PreT) ELSE IF Kind(PreT, P) = "N" THEN Fail(PreT) ELSE Ok(PreT) \cup Fail(PreT)
     [] OTHER -> Ok(PreT) \cup Fail(PreT)
 
-PropOf == CASE Cur.proc = "CREATE" /\ Kind(PreT, C) # "N" -> "C03"
+PropOf == CASE cfg.profile = "data" -> "C01"
+            [] Cur.proc = "CREATE" /\ Kind(PreT, C) # "N" -> "C03"
             [] Cur.proc \in {"READ", "WRITE"} -> "C01"
             [] Cur.proc = "SETATTR" /\ Cur.hassize -> "C01"
             [] Cur.proc \in {"LOOKUP", "CREATE", "MKDIR", "SYMLINK", "REMOVE", "RMDIR", "RENAME", "READDIR", "READDIRPLUS",
@@ -139,7 +142,8 @@ StatusBad ==
 OutcomeBad ==
   IF Out \in NormOuts(Allowed) THEN {}
   ELSE IF ~Cur.ok /\ Norm(PostT) # Norm(PreT)
-       THEN {[prop |-> "C02", why |-> "a failed request changed the tree (" \o Cur.proc \o ")"]}
+       THEN {[prop |-> (IF Cur.proc = "CREATE" /\ Kind(PreT, C) # "N" THEN "C03" ELSE "C02"),
+              why |-> "a failed request changed the tree (" \o Cur.proc \o ")"]}
   ELSE IF Cur.ok /\ [ok |-> FALSE, tree |-> Norm(PreT)] \in NormOuts(Allowed) /\ Cardinality(Allowed) = 1
        THEN {[prop |-> PropOf, why |-> Cur.proc \o " succeeded where the model requires failure"]}
   ELSE IF ~Cur.ok THEN {[prop |-> PropOf, why |-> Cur.proc \o " failed (" \o Cur.st \o ") where the model requires success"]}
@@ -235,7 +239,7 @@ AllBad == IF Cur.faulty THEN {}      \* an injected backend fault hit this reque
           ELSE OutcomeBad \cup ResultBad \cup StatusBad \cup AttrBad \cup ROBad \cup OwnBad
 Explained(b) == DevFor(b) # ""
 
-Init == /\ l = 1 /\ fid = EmptyFn /\ cverf = EmptyFn /\ stale = {} /\ acked = EmptyFn /\ hverf = "" /\ seenverf = {} /\ cfg = [maxfs |-> 0, ro |-> FALSE, squash |-> ""] /\ T = 65536
+Init == /\ l = 1 /\ fid = EmptyFn /\ cverf = EmptyFn /\ stale = {} /\ acked = EmptyFn /\ hverf = "" /\ seenverf = {} /\ cfg = [maxfs |-> 0, ro |-> FALSE, squash |-> "", profile |-> ""] /\ T = 65536
         /\ bad = {} /\ dev = {}
         /\ stats = [req |-> 0, ok |-> 0, fail |-> 0, hist |-> 0, attrs |-> 0, crash |-> 0]
 
